@@ -12,8 +12,8 @@ Definition s2l (s : string) : list Z :=
 
 Fixpoint split_on (sep : Z) (l : list Z) (cur : list Z) : list tok :=
   match l with
-  | [] => [rev cur]
-  | c :: l' => if c =? sep then rev cur :: split_on sep l' [] else split_on sep l' (c :: cur)
+  | [] => [rev_append cur []]
+  | c :: l' => if c =? sep then rev_append cur [] :: split_on sep l' [] else split_on sep l' (c :: cur)
   end.
 
 Definition tokens (line : list Z) : list tok :=
